@@ -67,9 +67,9 @@ package bech32
 //@ pred noupper(s) := forall j in 0..len(s) :: !(65 <= at(s, j) && at(s, j) <= 90)
 
 //@ func hrpExpand(hrp) (ret)
-//@   loop 1 invariant -1 <= rangeindex && rangeindex < len(h) && len(ret) == rangeindex + 1
+//@   loop 1 invariant -1 <= rangeindex && rangeindex < len(h) && len(ret) == rangeindex + 1 && (rg(ret) == 0 || fresh(ret))
 //@   loop 1 decreases len(h) - rangeindex
-//@   loop 2 invariant -1 <= rangeindex && rangeindex < len(h) && len(ret) == len(h) + 2 + rangeindex
+//@   loop 2 invariant -1 <= rangeindex && rangeindex < len(h) && len(ret) == len(h) + 2 + rangeindex && (rg(ret) == 0 || fresh(ret))
 //@   loop 2 decreases len(h) - rangeindex
 //@   ensures#len printable(hrp) ==> len(ret) == 2 * len(hrp) + 1                                      [C09]
 //@   assumes#det bytes(ret) == hrpx(hrp)
@@ -90,10 +90,10 @@ package bech32
 
 //@ func convertBits(data, frombits, tobits, pad) (ret, err)
 //@   requires 1 <= frombits && frombits <= 8 && 1 <= tobits && tobits <= 8
-//@   loop 1 invariant -1 <= rangeindex && rangeindex < len(data) && bits < tobits && 1 <= frombits && frombits <= 8 && 1 <= tobits && tobits <= 8 && maxv == pow2(tobits) - 1 && unchanged(data) && (rg(ret) == 0 || disjoint(ret, data))
+//@   loop 1 invariant -1 <= rangeindex && rangeindex < len(data) && bits < tobits && 1 <= frombits && frombits <= 8 && 1 <= tobits && tobits <= 8 && maxv == pow2(tobits) - 1 && unchanged(data) && (rg(ret) == 0 || (disjoint(ret, data) && fresh(ret)))
 //@   loop 1 invariant#syms forall j in 0..len(ret) :: 0 <= ret[j] && ret[j] <= maxv                                        [C09 C14]
 //@   loop 1 decreases len(data) - rangeindex
-//@   loop 2 invariant -1 <= rangeindex && rangeindex < len(data) && bits < tobits + frombits && 1 <= frombits && frombits <= 8 && 1 <= tobits && tobits <= 8 && maxv == pow2(tobits) - 1 && unchanged(data) && (rg(ret) == 0 || disjoint(ret, data))
+//@   loop 2 invariant -1 <= rangeindex && rangeindex < len(data) && bits < tobits + frombits && 1 <= frombits && frombits <= 8 && 1 <= tobits && tobits <= 8 && maxv == pow2(tobits) - 1 && unchanged(data) && (rg(ret) == 0 || (disjoint(ret, data) && fresh(ret)))
 //@   loop 2 invariant#syms forall j in 0..len(ret) :: 0 <= ret[j] && ret[j] <= maxv                                        [C09 C14]
 //@   loop 2 decreases bits
 //@   ensures#nil err != nil ==> ret == nil                                                                                  [C09 C14]
@@ -110,6 +110,12 @@ package bech32
 //@   loop 3 invariant 0 <= $pos && $pos <= len(s) - pos - 1 && len(data) == $pos && 1 <= pos && pos + 7 <= len(s)
 //@   loop 3 invariant#syms forall j in 0..$pos :: 0 <= data[j] && data[j] < 32                         [C09 C14]
 //@   loop 3 decreases len(s) - $pos
+//@   call fmt.Errorf#1 requires len(arg1) == 2 && typeis(arg1[0], "int") && typeis(arg1[1], "int32")        [C18]
+//@   call fmt.Errorf#2 requires len(arg1) == 0                                                           [C18]
+//@   call fmt.Errorf#3 requires len(arg1) == 2 && typeis(arg1[0], "int") && typeis(arg1[1], "int")          [C18]
+//@   call fmt.Errorf#4 requires len(arg1) == 2 && typeis(arg1[0], "int") && typeis(arg1[1], "int32")        [C18]
+//@   call fmt.Errorf#5 requires len(arg1) == 2 && typeis(arg1[0], "int") && typeis(arg1[1], "int32")        [C18]
+//@   call fmt.Errorf#6 requires len(arg1) == 0                                                           [C18]
 //@   ensures#nil err != nil ==> hrp == "" && data == nil                                               [C09 C14]
 //@   ensures#ascii err == nil ==> printable(old(s))                                                    [C09 C14]
 //@   ensures#case err == nil ==> (nolower(old(s)) || noupper(old(s)))                                  [C09]
